@@ -284,16 +284,21 @@ enum Ev {
 struct CountPolls<F> {
     inner: Pin<Box<F>>,
     polls: Arc<AtomicU64>,
+    /// the handler has passed its first synchronisation operation (it has taken the payments lock once)
+    passed: bool,
 }
 
 impl<F: Future> Future for CountPolls<F> {
     type Output = F::Output;
     fn poll(mut self: Pin<&mut Self>, cx: &mut Context<'_>) -> Poll<F::Output> {
         // nothing a handler does before it first takes the payments lock is visible to anyone
-        let first = self.polls.fetch_add(1, Ordering::Relaxed) == 0;
-        sched::set_fresh(first);
+        self.polls.fetch_add(1, Ordering::Relaxed);
+        let fresh = !self.passed;
+        sched::set_fresh(fresh);
         let r = self.inner.as_mut().poll(cx);
-        sched::set_fresh(false);
+        if fresh && !sched::set_fresh(false) {
+            self.passed = true;
+        }
         r
     }
 }
@@ -1627,6 +1632,7 @@ impl W {
                 let fut = CountPolls {
                     inner: Box::pin(async move { mgr.handle_htlc(&req).await }),
                     polls: Arc::clone(&polls),
+                    passed: false,
                 };
                 let h = {
                     let _g = inc.rt.enter();
